@@ -113,3 +113,99 @@ func verifH_C11_cross_directory_cycle() {
 	verifAssert(desc == "leaf", "C11 cross-directory cycle: the chain of references ends at the object of d.json")
 	verifReach("end")
 }
+
+// verifPathItemLibrary: a path item taken from a library file (not an OpenAPI document) in another
+// directory, by fragment or as the whole file; inside it relative references, which are spelled
+// relative to the library file. Decoy files of the same name stand in the root's directory.
+func verifPathItemLibrary(id string) {
+	nestedAt := verifChoose("nestedAt", 4)
+	r := `{"$ref":"s.json"}`
+	var item string
+	switch nestedAt {
+	case 0: // a path-level parameter's schema
+		item = `{"parameters":[{"name":"q","in":"query","schema":` + r + `}],"get":{"responses":{"200":{"description":"d"}}}}`
+	case 1: // an operation parameter's schema
+		item = `{"get":{"parameters":[{"name":"q","in":"query","schema":` + r + `}],"responses":{"200":{"description":"d"}}}}`
+	case 2: // a response body
+		item = `{"get":{"responses":{"200":{"description":"d","content":{"application/json":{"schema":` + r + `}}}}}}`
+	case 3: // a request body
+		item = `{"post":{"requestBody":{"content":{"application/json":{"schema":` + r + `}}},"responses":{"200":{"description":"d"}}}}`
+	}
+	files := map[string]string{
+		"/r/s.json":     `{"type":"boolean","description":"decoy"}`,
+		"/r/lib/s.json": `{"type":"integer","description":"wanted"}`,
+		"/s.json":       `{"type":"number","description":"decoy"}`,
+	}
+	ref := ""
+	containing := "/r/lib/items.json"
+	switch verifChoose("form", 3) {
+	case 0: // by fragment into a library of path items
+		ref = "lib/items.json#/things"
+		files[containing] = `{"things":` + item + `}`
+	case 1: // the whole file
+		ref = "lib/items.json"
+		files[containing] = item
+	case 2: // by fragment, two levels deep
+		ref = "lib/items.json#/x/things"
+		files[containing] = `{"x":{"things":` + item + `}}`
+	}
+	rootText := `{"openapi":"3.0.0","info":{"title":"t","version":"1"},"paths":{"/things":{"$ref":"` + ref + `"}}}`
+	rootLoc := &url.URL{Path: "/r/doc.json"}
+	var reads []string
+	loader := NewLoader()
+	loader.IsExternalRefsAllowed = true
+	loader.ReadFromURIFunc = func(_ *Loader, u *url.URL) ([]byte, error) {
+		reads = append(reads, u.Path)
+		if u.Path == rootLoc.Path {
+			return []byte(rootText), nil
+		}
+		if t, ok := files[u.Path]; ok {
+			return []byte(t), nil
+		}
+		return nil, errors.New("no such file")
+	}
+	doc, err := loader.LoadFromDataWithPath([]byte(rootText), rootLoc)
+	verifAssert(err == nil && doc != nil, id+" path item library: the document loads")
+	if err != nil || doc == nil {
+		return
+	}
+	pi := doc.Paths.Value("/things")
+	verifAssert(pi != nil, id+" path item library: the path item is there")
+	if pi == nil {
+		return
+	}
+	var got *SchemaRef
+	switch nestedAt {
+	case 0:
+		if len(pi.Parameters) == 1 && pi.Parameters[0].Value != nil {
+			got = pi.Parameters[0].Value.Schema
+		}
+	case 1:
+		if pi.Get != nil && len(pi.Get.Parameters) == 1 && pi.Get.Parameters[0].Value != nil {
+			got = pi.Get.Parameters[0].Value.Schema
+		}
+	case 2:
+		if pi.Get != nil && pi.Get.Responses != nil && pi.Get.Responses.Value("200") != nil && pi.Get.Responses.Value("200").Value != nil {
+			if mt := pi.Get.Responses.Value("200").Value.Content["application/json"]; mt != nil {
+				got = mt.Schema
+			}
+		}
+	case 3:
+		if pi.Post != nil && pi.Post.RequestBody != nil && pi.Post.RequestBody.Value != nil {
+			if mt := pi.Post.RequestBody.Value.Content["application/json"]; mt != nil {
+				got = mt.Schema
+			}
+		}
+	}
+	verifAssert(got != nil && got.Value != nil && got.Value.Description == "wanted", id+" path item library: a reference inside the path item resolves against the file the path item came from")
+	for _, rd := range reads {
+		verifAssert(rd == rootLoc.Path || rd == containing || rd == "/r/lib/s.json", id+" path item library: only the files the references designate are read")
+	}
+	verifReach("end")
+}
+
+//verif:harness id=C11 tier=quick,thorough witness=end bounds="external references allowed: a path item taken from a library file in a sub-directory (by fragment one or two levels deep, or as the whole file) containing a relative reference (schema of a path-level parameter, of an operation parameter, of a response body, of a request body) with same-named decoy files in the root's directory and above: only the root, the library and the file next to the library are read, and the reference resolves to that file"
+func verifH_C11_path_item_library() { verifPathItemLibrary("C11") }
+
+//verif:harness id=C02 tier=quick,thorough witness=end bounds="as C11's path_item_library (shared): the reference inside a path item taken from a library file resolves to the file next to the library"
+func verifH_C02_path_item_library() { verifPathItemLibrary("C02") }
